@@ -36,6 +36,13 @@ func main() {
 	r.Mark = func(step int, op, phase string) {
 		_ = syscall.Access(fmt.Sprintf("/verif-mark/%d/%s/%s", step, op, phase), 0)
 	}
+	if len(w.Filer) > 0 {
+		if err := r.RunFiler(w, os.Args[2]); err != nil {
+			fmt.Fprintln(os.Stderr, "filer workload failed:", err)
+			os.Exit(3)
+		}
+		return
+	}
 	if err := r.Run(w); err != nil {
 		fmt.Fprintln(os.Stderr, "workload failed:", err)
 		os.Exit(3)
